@@ -15,3 +15,80 @@ func init() {
 		Outside: []string{"String() methods and logging are not executed", "datagrams above 8192 bytes (the transports cannot deliver them)"},
 	})
 }
+
+var snTypes = []int64{0x00, 0x01, 0x02, 0x03, 0x04, 0x05, 0x06, 0x07, 0x08, 0x09, 0x0A, 0x0B, 0x0C, 0x0D, 0x0E, 0x0F, 0x10,
+	0x12, 0x13, 0x14, 0x15, 0x16, 0x17, 0x18, 0x1A, 0x1B, 0x1C, 0x1D}
+
+var snVarTypes = map[int64]int64{0x02: 0, 0x03: 0, 0x04: 1, 0x07: 0, 0x09: 0, 0x0A: 1, 0x0C: 0, 0x12: 1, 0x14: 1, 0x16: 0, 0x1A: 0, 0x1C: 0}
+
+func c21Insts(lens []int64) []Inst {
+	var out []Inst
+	for _, t := range snTypes {
+		min, isVar := snVarTypes[t]
+		if !isVar {
+			out = append(out, inst("packets1", "VH_C21_roundtrip", t, 0))
+			continue
+		}
+		for _, n := range lens {
+			if n < min {
+				continue
+			}
+			out = append(out, inst("packets1", "VH_C21_roundtrip", t, n))
+		}
+	}
+	out = append(out, inst("packets1", "VH_C21_short_topic"), inst("packets1", "VH_C21_length_arith"),
+		Inst{Pkg: "packets1", Fn: "VH_C21_header_bytes", Args: []int64{0, 300}, LoopBound: 400}, Inst{Pkg: "packets1", Fn: "VH_C21_header_bytes", Args: []int64{65300, 65531}, LoopBound: 400})
+	return out
+}
+
+func init() {
+	reg(&Spec{
+		ID:   "C21",
+		Pkgs: []string{"packets1"},
+		Quick: func() []Inst {
+			return c21Insts(cat(rng(0, 8), rng(245, 258), []int64{7168}))
+		},
+		Thor: func() []Inst {
+			return c21Insts(cat(rng(0, 300), []int64{1024, 7168}))
+		},
+		Asserts: []string{"C21.pack_ok", "C21.length_form", "C21.decode_ok", "C21.roundtrip", "C21.short_dec_enc", "C21.short_enc_dec", "C21.arith_total", "C21.arith_var", "C21.arith_hdr", "C21.arith_unpack_eq", "C21.hdr_form"},
+		Reach:   []string{"C21.short_form", "C21.long_form"},
+		Bounds: map[string]string{
+			"packet types":        "all 28; every flag, ID, code and content byte symbolic over its full legal range",
+			"variable field size": "quick: 0..8, 245..258, 7168 bytes; thorough: every size 0..300, 1024, 7168 (AUTH: method length 0/2/4 x data size)",
+			"length arithmetic":   "variable-part length fully symbolic over 0..65531 (contents irrelevant)",
+			"short topics":        "all 2-byte names and all 65536 IDs (fully symbolic)",
+		},
+		Outside: []string{"variable field sizes between the listed ones are covered only by the symbolic length-arithmetic harness, not with contents"},
+	})
+}
+
+func c22Insts(lens []int64) []Inst {
+	out := []Inst{inst("packets1", "VH_C22_fields")}
+	for _, n := range lens {
+		if n >= 2 && n <= 255 {
+			out = append(out, inst("packets1", "VH_C22_reencode", n, 0))
+		}
+		if n >= 4 {
+			out = append(out, inst("packets1", "VH_C22_reencode", n, 1))
+		}
+	}
+	return out
+}
+
+func init() {
+	reg(&Spec{
+		ID:      "C22",
+		Pkgs:    []string{"packets1"},
+		Quick:   func() []Inst { return c22Insts(cat(rng(0, 24), rng(253, 262))) },
+		Thor:    func() []Inst { return c22Insts(rng(0, 300)) },
+		Asserts: []string{"C22.accepts_only_wellformed", "C22.fields", "C22.fields_deep", "C22.repack_ok", "C22.repack_wellformed", "C22.repack_type", "C22.repack_body", "C22.repack_bodylen"},
+		Reach:   []string{"C22.decoded", "C22.rejected", "C22.disconnect_zero"},
+		Bounds: map[string]string{
+			"fields harness":   "datagram length symbolic 0..8192, all bytes symbolic; scalar fields compared exactly, variable fields by length and (for []byte) by aliasing of the receive buffer",
+			"reencode harness": "datagram of exactly n symbolic bytes whose length field equals n, in the 1-octet format (n<=255) and in the 3-octet format (n>=4), quick n in 0..24 and 253..262, thorough every n in 0..300; variable fields compared byte by byte; Pack() of the decoded packet compared with the datagram",
+			"oracle":           "independent reference parser (harness/shared/sn.go.tmpl) written from the MQTT-SN 1.2 byte layout; header form by first octet only",
+		},
+		Outside: []string{"contents of variable fields of datagrams longer than 300 bytes (lengths and aliasing are still covered up to 8192)"},
+	})
+}
